@@ -375,8 +375,8 @@ class Bits:
             raise ValueError("Cannot shift an empty bitstring.")
         if not n:
             return self._copy()
-        s = self.__class__(length=min(n, len(self)))
-        n = min(n, len(self))
+        n = min(int(n), len(self))
+        s = self.__class__(length=n)
         s._addright(self._absolute_slice(0, len(self) - n))
         return s
 
